@@ -48,6 +48,16 @@ CHECKS = {
             'Termination = bound on token-reader calls (200*(n+8)); prefix preservation is checked '
             'for prefixes closed by a group.',
             'DESIGN.md 5 C06'),
+    'C07': ('exploration',
+            'template sweep over every known macro/environment name x option sets, exhaustive '
+            'token soups, grammar documents; oracle = returns str, no exception, bounded reads',
+            'Every name of the default walker and latex2text databases (read at run time) in ~24 '
+            'macro / 17 environment call shapes, crossed with a pairwise-covering (quick) or the '
+            'full 240-element (thorough) option product; plus all soups <= 2/3 tokens and '
+            'generated documents.',
+            'Default context databases and default tolerant parsing; termination decided by the '
+            'read-count bound.',
+            'DESIGN.md 5 C07'),
     'C11': ('exploration',
             'bounded-exhaustive token soups x parsing-state configuration catalogue + random long '
             'strings; relational oracle over the whole token sequence (lossless, progress, '
